@@ -102,6 +102,7 @@ package statesync
 //@   trusted
 //@   assigns q.waiters, q.Mutex
 //@ func chunkQueue.Next
+//@   assigns except(types, sm, statesync.snapshot)
 //@   ensures chosen: (result1 == nil && result0 != nil) ==> (result0.Index == index && result0.Sender == q.chunkSenders[index])
 //@   atcall chunkQueue.load lowest: arg1 == index
 
@@ -111,12 +112,23 @@ package statesync
 
 // Discarding makes the chunk absent, unallocated and unreturned again (so that it is fetched and applied again).
 //@ func chunkQueue.discard
+//@   assigns except(types, sm, statesync.snapshot)
 //@   ensures gone: (result == nil && q.snapshot != nil) ==> (q.chunkFiles[index] == "" && (old(q.chunkFiles[index]) != "" ==> (!q.chunkAllocated[index] && !q.chunkReturned[index])))
+//@ func chunkQueue.Discard
+//@   assigns except(types, sm, statesync.snapshot)
+//@ func chunkQueue.DiscardSender
+//@   trusted
+//@   assigns except(types, sm, statesync.snapshot)
+//@ func snapshotPool.removePeer
+//@   trusted
+//@   assigns except(types, sm, statesync.snapshot)
 //@ func chunkQueue.Retry
+//@   assigns except(types, sm, statesync.snapshot)
 //@   ensures again: !q.chunkReturned[index]
 
 // The application sees exactly the chunk the queue handed out: its index, bytes and recorded sender.
 //@ func syncer.applyChunks
+//@   assigns except(types, sm, statesync.snapshot)
 //@   loop 1 invariant t: true
 //@   loop 2 invariant t: true
 //@   loop 3 invariant t: true
@@ -189,6 +201,7 @@ package statesync
 //@   ensures listed: p.formatBlacklist[format]
 //@   loop 1 invariant t: true
 //@ func snapshotPool.RejectPeer
+//@   assigns except(types, sm, statesync.snapshot)
 //@   ensures listed: peerID != "" ==> p.peerBlacklist[peerID]
 
 // ---------------------------------------------------------------------------------------------------------------
